@@ -117,6 +117,12 @@ static void audit(const char *when) {
         if (!nm || strcmp(nm, MD[s].name)) vfail("ST.zombie", "ST.zombie|name", "name query on %s returned %s", MD[s].name, nm ? nm : "NULL");
         if (!m_mod_is(h, want)) vfail("ST.edge", "ST.edge|is", "m_mod_is disagrees with m_mod_state for %s", MD[s].name);
     }
+    for (int s = 0; s < NM; s++) {      /* user data flagged auto-free stays valid as long as its source / subscription is registered */
+        for (int j = 0; j < MAXSRC; j++) if (MD[s].src[j].present && (MD[s].src[j].flags & 8) && !lg_is_live(SRCUPH[s][j]))
+            vfail("SR.autofree", "SR.autofree|early", "auto-free user data of %s's %s source #%d released while the source is still registered (%s)", MD[s].name, KN[MD[s].src[j].kind], MD[s].src[j].key, when);
+        for (int q = 0; q < NPAT; q++) if (MD[s].sub[q].present && MD[s].sub[q].af && !lg_is_live(UPVH[s][q]))
+            vfail("SR.autofree", "SR.autofree|early-sub", "auto-free user data of %s's subscription %s released while the subscription is still present (%s)", MD[s].name, PAT[q], when);
+    }
     if (ON(R_SR)) for (int s = 0; s < NM; s++) audit_srclen(s, when);
     if (ctx_hidden()) return;
     ssize_t len = m_ctx_len();
